@@ -36,6 +36,12 @@ CHECKS["C08"] = dict(level="exploration", engine="E4-domain",
    note="Trusted: SQLite native table as reference; go-sqlite3 driver value mapping is the same on both sides. Values outside the alphabet are not covered.",
    ref="§5 C08")
 
+CHECKS["C20"] = dict(level="exploration", engine="E4-domain",
+   technique="exhaustive enumeration of grammar-generated CREATE VIRTUAL TABLE argument lists on the real extension against a small reference parser of the documented grammar",
+   text="About 11k (quick) / 22k (thorough) argument lists generated from the documented grammar (1-3 column definitions over names incl. quoted names and names differing in case, types, constraints incl. UNIQUE/DEFAULT, table-level keys incl. composite and unknown columns; option spellings valid, malformed, valueless, duplicated, unknown; missing/empty columns; three quoting styles). Accepted definitions must declare exactly the specified names/order/key/NOT NULL (pragma_table_xinfo), be usable by those names, reject duplicate and NULL keys and honour NOT NULL; rejected ones must return an error, leave no table registered (a following valid CREATE with the same name succeeds, s3db_version says not found) and write nothing to the store.",
+   note="Trusted: the reference parser encodes the README grammar; where the documentation is silent (key reference differing from the column name only in case, trailing comma) either outcome is accepted. entries_per_node=1 is not exercised.",
+   ref="§5 C20")
+
 NOT_YET = {}
 
 props = [json.loads(l) for l in open("properties.jsonl")]
